@@ -71,6 +71,19 @@ def main():
         V = lambda bs: bytes(sum(l << i for i, l in enumerate(b)) for b in bs)
         if V(c2) != ect or V(t2) != etag:
             print("irsym selftest MISMATCH gcm_spec"); ok = False
+        from . import hash_spec, aegis_spec
+        for n in (0, 1, 128, 129, 300):
+            msg = bytes((i * 7 + 1) & 0xff for i in range(n))
+            if bytes(hash_spec.blake2b(list(msg), 32, list(range(17)), list(b"0123456789abcdef"), list(b"ABCDEFGHIJKLMNOP"))) != \
+                    hashlib.blake2b(msg, digest_size=32, key=bytes(range(17)), salt=b"0123456789abcdef", person=b"ABCDEFGHIJKLMNOP").digest():
+                print("irsym selftest MISMATCH blake2b spec model"); ok = False
+        if bytes(hash_spec.siphash(list(range(15)), list(range(16)), 8)).hex() != "e545be4961ca29a1":
+            print("irsym selftest MISMATCH siphash spec model"); ok = False
+        # draft-irtf-cfrg-aegis-aead test vector (AEGIS-128L, 16 zero bytes, no ad; 128-bit tag = xor of the two halves)
+        B = lambda bs: [gcm_spec.cbyte(x) for x in bs]
+        c3, t3 = aegis_spec.aegis128l_encrypt(B(bytes.fromhex("10010000000000000000000000000000")), B(bytes.fromhex("10000200000000000000000000000000")), B(bytes(16)), [])
+        if V(c3).hex() != "c1c0e58bd913006feba00f4b3cc3594e" or V(t3).hex() != "25835bfbb21632176cf03840687cb968cace4617af1bd0f7d064c639a5c79ee4":
+            print("irsym selftest MISMATCH aegis128l spec model", V(c3).hex(), V(t3).hex()); ok = False
         print("irsym AES-NI/PCLMULQDQ models and the SP 800-38D specification model: test case 16 reproduced")
         print("irsym interpreter: SHA-256/512, ChaCha20 and X25519 known-answer vectors reproduced (%d IR steps for the ladder)" % steps)
     finally:
